@@ -65,6 +65,36 @@ TEMPLATES = [
 ]
 
 
+REWRITE_OPS = [
+    "create table s.w9 as select {c1}, {c2}, {c3} from s.t1",
+    "insert into s.w9 select {c1}, {c2}, {c3} from s.t2",
+    "insert into s.w9 select x1, x2, x3 from s2.t3",                 # positional: other names than the target's
+    "insert into s.w9 ({c3}, {c1}) select y1, y2 from s2.t4",
+    "insert into s.w9 select * from s.t5",
+]
+
+
+def rewrite_scripts(quick, seed):
+    """one table written 2-4 times in one script (CTAS, INSERT by name / by position / with a column list / star) and then read by star and by
+    position, with a truthy provider that knows another table and one that knows the sources: the session's knowledge of the table is
+    re-registered by every write - its column ORDER must not depend on the hash seed (sets merged into lists, dict order, ...)"""
+    import itertools
+
+    out = []
+    cols = dict(c1=COLS[2], c2=COLS[0], c3=COLS[1])
+    tail = "insert into s.out select * from s.w9; insert into s.out2 select z1, z2, z3 from s.w9"
+    mds = [{"s.other": ["q"]}, {"s.t5": [COLS[1], COLS[3 % len(COLS)], COLS[0]], "s.out2": ["o1", "o2", "o3"]}]
+    k = 0
+    for n in (2, 3, 4):
+        for ops in itertools.product(range(len(REWRITE_OPS)), repeat=n):
+            k += 1
+            if n == 4 and quick and k % 7 != seed % 7:
+                continue
+            sql = ";\n".join(REWRITE_OPS[i].format(**cols) for i in ops) + ";\n" + tail
+            out.append({"sql": sql, "dialect": "ansi", "metadata": mds[k % 2], "origin": "rewrite_chain"})
+    return out
+
+
 def gen_strategy():
     from hypothesis import strategies as st
 
@@ -105,6 +135,7 @@ def collect_cases(ctx):
     # every template once with fixed arguments (the random stream below draws them in scripts of 1-4 statements)
     for ti, (dl, tpl) in enumerate(TEMPLATES):
         cases.append({"sql": tpl.format(w="s.w1", a="s.t1", b="s2.t2", e="s.t3", c=COLS[0], d=COLS[1]), "dialect": dl, "metadata": None, "origin": "template"})
+    cases += rewrite_scripts(ctx.quick, ctx.seed)
     # generated: Hypothesis is used as the seeded generator; the property is decided across processes afterwards
     gen = []
 
